@@ -10,6 +10,7 @@ import Nstd.Future.LiveProducer
 import Nstd.Future.LiveAll
 import Nstd.Future.LiveReduce
 import Nstd.Future.LiveSpawn
+import Nstd.Future.Terminal
 import Nstd.Future.Handshake
 import Nstd.Future.HandshakeWitness
 /-
@@ -216,6 +217,24 @@ theorem no_stuck {cfg : Config} {s : State} (hrep : cfg.repaired = true) (hwf : 
     (hl : ∃ t th, s.threads t = some th ∧ th.finished = false) : ∃ t, enabled s t = true :=
   Nstd.Future.no_stuck hrep hwf h hl
 
+/-- The program cannot stop early: a reachable state of the repaired system in which no thread can step is a complete
+    success state — every thread has finished (so every `join()`, destructor and `Future::start` has returned) and every
+    started call has completed, was executed exactly once and its record was freed exactly once. -/
+theorem terminal_state_is_complete {cfg : Config} {s : State} (hrep : cfg.repaired = true) (hwf : cfg.WellFormed)
+    (h : Reach cfg s) (hterm : ∀ t, enabled s t = false) :
+    (∀ t th, s.threads t = some th → th.finished = true) ∧
+    (∀ c, c < s.nextCall → s.completed c = true ∧ s.execCount c = 1 ∧ s.freeCount c = 1) :=
+  Nstd.Future.terminal_state_is_complete hrep hwf h hterm
+
+/-- `join_eventually`, proved part: every MAXIMAL FINITE schedule of the repaired system (a schedule after which no thread
+    can step) ends with all joins returned and every started call executed exactly once.  What is missing for the full
+    statement is termination of every weakly fair schedule (see the OPEN block at the end of this file). -/
+theorem join_eventually_partial {cfg : Config} (hrep : cfg.repaired = true) (hwf : cfg.WellFormed)
+    (sched : List Tid) {s : State} (hrun : runSched (State.init cfg) sched = some s) (hmax : ∀ t, enabled s t = false) :
+    (∀ t th, s.threads t = some th → th.finished = true) ∧
+    (∀ c, c < s.nextCall → s.completed c = true ∧ s.execCount c = 1 ∧ s.freeCount c = 1) :=
+  Nstd.Future.terminal_state_is_complete hrep hwf (runSched_reach Reach.init hrun) hmax
+
 /-- Mutual exclusion and progress of the simulated Signal layer inside the full model (both code variants): the two
     pool signals' mutexes are exclusive; a thread blocked on any Signal mutex has an owner that can step; a thread
     blocked on the pool mutex implies some other thread can step; no sleeper of a pool signal misses a set flag (a setter
@@ -312,13 +331,15 @@ OPEN: join_eventually   (liveness under weak fairness, full model of the repaire
       ∀ n t f, topFrame (run n) t = some (.join f) → ∃ m ≥ n, topFrame (run m) t ≠ some (.join f)
          -- (more precisely: the thread has left join(): the frame below `join f` is on top)
 
-  PROVED of it (this file, full model, every schedule, any number of threads, any capacity): its deadlock-freedom core
+  PROVED of it (this file, full model, every schedule, any number of threads, any capacity): `join_eventually_partial`
+    (every maximal finite schedule ends with all joins returned and every call executed exactly once =
+    `terminal_state_is_complete`), its deadlock-freedom core
     `no_stuck` (unconditional: whenever some thread is unfinished, some thread can step), with `no_stuck_worker_side`,
     `no_stuck_producer_side`, `no_stuck_join_side`, `no_stuck_shutdown_side`, `queued_job_served`,
     `no_stuck_while_a_worker_lives`, `signal_layer_progress`, `deadlock_shape`, `started_call_is_never_lost`,
     `terminate_jobs_balance`, `counters_identity`; and the safety half (`join_after_completion`: when join returns the
     call has run exactly once).
-  MISSING for `join_eventually`: a ranking argument under weak fairness on top of `no_stuck` — the CAS retry loops of
+  MISSING for `join_eventually`: that every weakly fair schedule is finite — a ranking argument on top of `no_stuck`; the CAS retry loops of
     push/pop and the spin lock of the lazily created pool are lock-free, not wait-free, and the back-pressure / idle loops
     re-check; one needs a well-founded measure showing that every fair run reaches the end of the (finite) client
     scripts.  Not attempted.
